@@ -1,5 +1,6 @@
 import Mathlib.NumberTheory.LucasPrimality
 import Mathlib.Tactic.NormNum.Prime
+import HdwModel.Prim.SecpAffine
 
 /-!
 Pratt certificates for the secp256k1 group order and field prime, checked by the kernel
@@ -8,12 +9,7 @@ Pratt certificates for the secp256k1 group order and field prime, checked by the
 
 namespace Hdw.Lemmas.SecpPrime
 
-/-- binary modular exponentiation with fuel: `acc * b ^ e % m` when `e < 2 ^ fuel` -/
-def powModAux : Nat → Nat → Nat → Nat → Nat → Nat
-  | 0, _, _, m, acc => acc % m
-  | fuel + 1, b, e, m, acc =>
-    if e = 0 then acc % m
-    else powModAux fuel (b * b % m) (e / 2) m (if e % 2 = 1 then acc * b % m else acc)
+-- `powModAux` / `powMod` are defined in `HdwModel/Prim/SecpAffine.lean` (Mathlib-free, so that the driver can link them)
 
 theorem powModAux_eq (fuel : Nat) : ∀ (b e m acc : Nat), e < 2 ^ fuel →
     powModAux fuel b e m acc = acc * b ^ e % m := by
@@ -55,8 +51,6 @@ theorem powModAux_eq (fuel : Nat) : ∀ (b e m acc : Nat), e < 2 ^ fuel →
           _ = acc * b ^ (2 * (e / 2)) % m := by rw [← Nat.mul_mod]
           _ = acc * b ^ e % m := by rw [← hE]
 
-/-- `b ^ e % m`, computed by square-and-multiply (`e + 1` squarings of fuel are always enough) -/
-def powMod (b e m : Nat) : Nat := powModAux (Nat.log2 e + 1) b e m 1
 
 theorem powMod_eq (b e m : Nat) : powMod b e m = b ^ e % m := by
   unfold powMod
